@@ -251,12 +251,14 @@ def random_trace(rng, nops=14):
     return {"hdr": {"universe": "abcs"}, "ev": ev}
 
 
-def cyclic_trace(copy=False):
+def cyclic_trace(copy=False, seeded=False, hold=False):
     """Deliberately cyclic universe 1 <- 2 <- 3 <- 1 (4 free): the build must be rejected
-    and must leave the nodes unfrozen."""
+    and must leave the nodes unfrozen.  seeded: node 2 needs a seed (the model attaches a seed input to it while
+    building); hold: the caller keeps the exception of the rejected build (and with it the half-built model) alive."""
     w = World.__new__(World)
     n1 = lsl.Calc(lambda x: x, lsl.Value(0.0), _name="a", update_on_init=False)
-    n2 = lsl.Calc(lambda x: x, n1, _name="b", update_on_init=False)
+    n2 = lsl.Calc((lambda x, seed=None: x) if seeded else (lambda x: x), n1, _name="b", update_on_init=False,
+                  _needs_seed=seeded)
     n3 = lsl.Calc(lambda x: x, n2, update_on_init=False)
     n1.set_inputs(n3)
     n4 = lsl.Value(1.0, _name="s")
@@ -270,7 +272,10 @@ def cyclic_trace(copy=False):
         e.update({"ok": True, "reason": "none"})
     except Exception as ex:  # noqa: BLE001
         e.update({"ok": False, "reason": classify(ex)})
+        if hold:
+            w.held = ex
     e["user_names"] = w.user_names()
+    e["seed_inputs_left"] = sorted(kw for nd in (n1, n2, n3) for kw, i in nd.kwinputs.items() if i.name.startswith("_model"))
     ev.append(e)
     ev.append(w.mutate(2, "function"))
     ev.append(w.mutate(1, "name"))
